@@ -319,7 +319,8 @@ struct Token {
                 i++;
                 continue;
             }
-            if (data[i] < t.data[i]) {
+            // bytes compare unsigned, as the reader's (Go) string order does
+            if ((unsigned char)data[i] < (unsigned char)t.data[i]) {
                 return true;
             } else {
                 return false;
